@@ -1,0 +1,8 @@
+//go:build !verif
+
+package util
+
+// verifRange is a no-op unless built with the verif tag (see verif_on.go).
+func verifRange[K comparable, V any](m *Map[K, V], f func(key K, value V) bool) (handled bool, all bool) {
+	return false, false
+}
